@@ -187,7 +187,8 @@ def zeros( shape, dtype=float, order = 'C'):
     elif isinstance(dtype, UTPM):
         D,P = dtype.data.shape[:2]
         tmp = numpy.zeros((D,P) + tuple(shape) ,dtype = dtype.data.dtype)
-        tmp*= dtype.data.flatten()[0]
+        if dtype.data.size:
+            tmp*= dtype.data.flatten()[0]
         return dtype.__class__(tmp)
 
     elif isinstance(dtype, Function):
